@@ -46,7 +46,8 @@ struct Row
 {
   Bin bin;
   std::vector<std::pair<int, double>> el;
-  double y = 0, a = 0, n = 1; // data, additive term, efficiency
+  double y = 0, a = 0, n = 1; // data, additive term, efficiency (as currently configured)
+  double a_full = 0, nf1 = 1, nf2 = 1; // additive term if switched on; the two normalisation factors (1/efficiency) if used
   int view_basic = 0;         // basic view number of the bin's (view, segment): decides the subset
   int view_basic_nontof = 0;  // the same under the symmetries a non-TOF projector of the same settings uses
   bool used = true;           // inside max_segment_num_to_process and not a zeroed end plane
@@ -59,7 +60,7 @@ struct Prob
   shared_ptr<ExamInfo> exam;
   shared_ptr<VoxelsOnCartesianGrid<float>> lambda, input;
   shared_ptr<ProjDataInMemory> y, additive, normfac1, normfac2;
-  bool tof = false, sym = true, zero_end = false, subset_sens = true, use_prior = false;
+  bool tof = false, sym = true, zero_end = false, subset_sens = true, use_prior = false, additive_on = false;
   int norm_kind = 0, max_seg = 0, num_subsets = 1, sens_mode = 0;
   double beta = 0;
   std::vector<int> legal_subsets;
@@ -99,6 +100,22 @@ explicit_rows(const Prob& pr, const shared_ptr<ProjDataInfo>& pdi, std::vector<R
                        && !(pr.zero_end && s == 0 && (a == pdi->get_min_axial_pos_num(0) || a == pdi->get_max_axial_pos_num(0)));
               rows.push_back(r);
             }
+}
+
+// (re)derives what depends on the switches that can change during a history: efficiencies, additive term, bins in use
+void
+apply_config(Prob& pr)
+{
+  for (std::vector<Row>* rows : { &pr.rows, &pr.rows_sens })
+    for (Row& row : *rows)
+      {
+        row.n = 1. / ((pr.norm_kind >= 1 ? row.nf1 : 1.) * (pr.norm_kind >= 2 ? row.nf2 : 1.));
+        row.a = pr.additive_on ? row.a_full : 0.;
+        const int s = row.bin.segment_num(), a = row.bin.axial_pos_num();
+        const ProjDataInfo& pdi = rows == &pr.rows ? *pr.pdi : *pr.pdi_sens;
+        row.used = std::abs(s) <= pr.max_seg
+                   && !(pr.zero_end && s == 0 && (a == pdi.get_min_axial_pos_num(0) || a == pdi.get_max_axial_pos_num(0)));
+      }
 }
 
 Prob
@@ -158,10 +175,10 @@ make_prob(const Plan& p)
   // data
   pr.y.reset(new ProjDataInMemory(pr.exam, pr.pdi));
   const bool use_add = p.c("additive", 0) != 0;
-  if (use_add)
-    pr.additive.reset(new ProjDataInMemory(pr.exam, pr.pdi));
+  pr.additive_on = use_add;
+  pr.additive.reset(new ProjDataInMemory(pr.exam, pr.pdi));
   // bin efficiencies: norm data hold 1/efficiency; non-TOF norm data also for TOF emission data
-  if (pr.norm_kind >= 1)
+  // (both data sets always exist: the configuration can change during a history)
     {
       pr.normfac1.reset(new ProjDataInMemory(pr.exam, pr.pdi_sens));
       std::vector<float> v(pr.normfac1->size_all());
@@ -169,7 +186,6 @@ make_prob(const Plan& p)
         x = (float)(0.5 + 1.5 * r.unit());
       pr.normfac1->fill_from(v.begin());
     }
-  if (pr.norm_kind >= 2)
     {
       pr.normfac2.reset(new ProjDataInMemory(pr.exam, pr.pdi_sens));
       std::vector<float> v(pr.normfac2->size_all());
@@ -177,36 +193,32 @@ make_prob(const Plan& p)
         x = (float)(0.75 + 0.5 * r.unit());
       pr.normfac2->fill_from(v.begin());
     }
-  auto eff = [&](const Bin& b) {
-    double f = 1;
-    Bin b0 = b;
+  auto factors = [&](Row& row) {
+    Bin b0 = row.bin;
     b0.timing_pos_num() = 0;
-    if (pr.normfac1)
-      f *= pr.normfac1->get_bin_value(b0);
-    if (pr.normfac2)
-      f *= pr.normfac2->get_bin_value(b0);
-    return 1. / f;
+    row.nf1 = pr.normfac1->get_bin_value(b0);
+    row.nf2 = pr.normfac2->get_bin_value(b0);
   };
   for (auto& row : pr.rows)
     {
+      factors(row);
       double f = 0;
       for (auto& e : row.el)
         f += e.second * phantom[(size_t)e.first];
-      row.a = use_add ? 0.25 + 0.5 * r.unit() : 0.;
-      row.n = eff(row.bin);
-      row.y = std::floor(row.n * (f + row.a) * (0.6 + 0.8 * r.unit()) + 0.5);
+      const float af = (float)(0.25 + 0.5 * r.unit());
+      row.a_full = (double)af;
       Bin bb = row.bin;
+      bb.set_bin_value(af);
+      pr.additive->set_bin_value(bb);
+      const double n0 = 1. / ((pr.norm_kind >= 1 ? row.nf1 : 1.) * (pr.norm_kind >= 2 ? row.nf2 : 1.));
+      // no counts in bins no LOR of which crosses the image: their model mean is zero whenever the additive term is off
+      row.y = row.el.empty() ? 0. : std::floor(n0 * (f + (use_add ? row.a_full : 0.)) * (0.6 + 0.8 * r.unit()) + 0.5);
       bb.set_bin_value((float)row.y);
       pr.y->set_bin_value(bb);
-      if (use_add)
-        {
-          bb.set_bin_value((float)row.a);
-          pr.additive->set_bin_value(bb);
-          row.a = (double)(float)row.a;
-        }
     }
   for (auto& row : pr.rows_sens)
-    row.n = eff(row.bin);
+    factors(row);
+  apply_config(pr);
   return pr;
 }
 
@@ -229,7 +241,7 @@ make_obj(const Prob& pr, int mode, const std::string& dir)
   shared_ptr<objective_type> obj(new objective_type);
   obj->set_proj_data_sptr(pr.y);
   obj->set_projector_pair_sptr(shared_ptr<ProjectorByBinPair>(new ProjectorByBinPairUsingProjMatrixByBin(rc::make_matrix(pr.sym))));
-  if (pr.additive)
+  if (pr.additive_on)
     obj->set_additive_proj_data_sptr(pr.additive);
   obj->set_normalisation_sptr(make_norm(pr));
   obj->set_zero_seg0_end_planes(pr.zero_end);
@@ -564,6 +576,42 @@ run_seq(const Plan& p, sim::Result& res)
           sim::probe("num_subsets_changed");
           continue;
         }
+      if (op.kind.compare(0, 4, "cfg_") == 0)
+        {
+          // a setter changes the model on the SAME object, then set_up: from now on it has to be the new model's quantities
+          sim::logf("op %d %s %ld", step, op.kind.c_str(), op.arg(0));
+          if (pr.sens_mode == 1)
+            continue; // the sensitivity files on disk belong to the old model
+          if (op.kind == "cfg_norm")
+            {
+              pr.norm_kind = (int)(op.arg(0) % 3);
+              apply_config(pr);
+              H->set_normalisation_sptr(make_norm(pr));
+            }
+          else if (op.kind == "cfg_additive")
+            {
+              pr.additive_on = !pr.additive_on;
+              apply_config(pr);
+              H->set_additive_proj_data_sptr(pr.additive_on ? shared_ptr<ExamData>(pr.additive) : shared_ptr<ExamData>());
+            }
+          else if (op.kind == "cfg_zero_end")
+            {
+              pr.zero_end = !pr.zero_end;
+              apply_config(pr);
+              H->set_zero_seg0_end_planes(pr.zero_end);
+            }
+          else
+            {
+              pr.max_seg = (int)(op.arg(0) % (pr.pdi->get_max_segment_num() + 1));
+              apply_config(pr);
+              H->set_max_segment_num_to_process(pr.max_seg);
+            }
+          if (H->set_up(pr.lambda) != Succeeded::yes)
+            sim::fail("set_up_failed", "set_up after %s reports failure", op.kind.c_str());
+          first.clear();
+          sim::probe("model_changed_on_same_object");
+          continue;
+        }
       const int s = (int)(op.arg(0) % pr.num_subsets);
       const std::string key = op.kind + ":" + std::to_string(op.kind[0] == 'f' ? 0 : s);
       sim::logf("op %d %s", step, key.c_str());
@@ -693,6 +741,11 @@ gen(uint64_t seed, const std::string& tier, long idx)
         o.kind = "resetup";
       else if (k < 11)
         o.kind = "subsets";
+      else if (k < 23)
+        {
+          static const char* cfgs[] = { "cfg_norm", "cfg_additive", "cfg_zero_end", "cfg_max_seg" };
+          o.kind = cfgs[r.below(4)];
+        }
       else
         o.kind = kinds[r.below(sizeof kinds / sizeof *kinds)];
       o.a.push_back((long)r.below(1000));
